@@ -29,6 +29,11 @@
 // returns after rank(i) other calls completed, with a pause as fall-back when those cannot be
 // running) x parallelism 2..3 x bufferSize 0..2 x {lag 0,1,2, wave 2,3}, so that results sit in the
 // reorder heap while the source waits for the consumer.
+// Group "procs": runtime.GOMAXPROCS(g) for g in {1, 2, 3, inherited/2} is called inside the process
+// (restored afterwards; the group runs alone and sequentially), then MapIterator / MapStream run
+// with parallelism in {0, -1} x bufferSize in {-3, 0, 1} on 80..140 items with a straggler at 0
+// or late-first latency and a slow consumer; the in-flight bound and the f-concurrency gauge are
+// judged against the GOMAXPROCS value in force at the call.
 // Injected error VALUES (source and f): a sentinel, context.Canceled itself, a wrapped
 // context.Canceled, context.DeadlineExceeded, an error wrapping stream.End, an error whose Is
 // method matches stream.End. The reported error must be the injected one (errors.Is(reported,
@@ -106,7 +111,7 @@ func main() {
 			"non-trivial = the source had >= 2 items (order can matter); distinct = by the tuple with fault / close positions bucketed " +
 			"into {0, 1, middle, len-1, len}. Cases with < 2 items are run and judged but not counted.")
 		r.Assume("f is a pure function of the item and the source hands out each item once (both are the monitor's own)")
-		r.Assume("parallelism <= 0 means runtime.GOMAXPROCS at the time of the call")
+		r.Assume("parallelism <= 0 means runtime.GOMAXPROCS at the time of the call; GOMAXPROCS changes only where the monitor changes it itself (group \"procs\", which runs alone, sequentially, after all other groups)")
 		r.Assume("the goroutine dump format of the Go runtime in use (go1.23) — used for the STUCK verdict and the leak check")
 
 		nIter := r.Scale(900, 2600)
@@ -133,6 +138,34 @@ func main() {
 				runPlan(c, mkSmallPlan(c.Rand, api, sp), st)
 			})
 		}
+
+		// GOMAXPROCS changed inside the process: "parallelism <= 0 means GOMAXPROCS" is judged against
+		// the value in force when MapIterator / MapStream is called. GOMAXPROCS is process-global, so
+		// this group runs alone, one case at a time, after everything above has finished, and every
+		// case restores the inherited value.
+		inherited := runtime.GOMAXPROCS(0)
+		procsVals := []int{1, 2, 3}
+		if h := inherited / 2; h > 3 {
+			procsVals = append(procsVals, h)
+		}
+		var procs []procsSpec
+		for rep := 0; rep < r.Scale(1, 3); rep++ {
+			for _, g := range procsVals {
+				for _, api := range []string{"iter", "stream"} {
+					for _, par := range []int{0, -1} {
+						for _, buf := range []int{-3, 0, 1} {
+							procs = append(procs, procsSpec{api: api, g: g, par: par, buf: buf, shape: (len(procs) + rep) % 2})
+						}
+					}
+				}
+			}
+		}
+		r.Cases("procs", len(procs), 1, func(c *vkit.Case) {
+			sp := procs[c.Index]
+			old := runtime.GOMAXPROCS(sp.g)
+			defer runtime.GOMAXPROCS(old)
+			runPlan(c, mkProcsPlan(c.Rand, sp), st)
+		})
 
 		st.mu.Lock()
 		r.SetExtra("distinct_completion_orders", len(st.orders))
@@ -163,6 +196,8 @@ func main() {
 				r.Floor("source errors surfaced with value kind "+k, r.Table("surfaced error value", "source: "+k), 5)
 				r.Floor("f errors surfaced with value kind "+k, r.Table("surfaced error value", "f: "+k), 5)
 			}
+			r.Floor("cases run after runtime.GOMAXPROCS(g) was changed in this process", r.Table("cases", "procs"), int64(len(procs)))
+			r.Floor("such cases in which taken - nextStarted reached the implementation's limit", r.Table("procs", "in-flight reached max(buffer,GOMAXPROCS)+1"), int64(len(procs)/4))
 			r.Floor("errors surfaced that f returned", r.Table("stream error", "from f"), 20)
 			r.Floor("errors surfaced that the source returned", r.Table("stream error", "from source"), 20)
 		}
@@ -199,6 +234,8 @@ type plan struct {
 	SrcErrKind string `json:"source_error_value,omitempty"`
 	FErrKind   string `json:"f_error_value,omitempty"`
 	Perm       []int  `json:"f_completion_order_wanted,omitempty"`
+	// Procs > 0: the case runs after runtime.GOMAXPROCS(Procs) was called in this process.
+	Procs int `json:"gomaxprocs_set_in_process,omitempty"`
 	// SrcBlockAt >= 0: after that many items the source's Next blocks until its ctx is done.
 	SrcBlockAt int `json:"source_blocks_after"`
 	P          int `json:"effective_parallelism"`
@@ -344,6 +381,43 @@ func mkSmallPlan(rnd *vkit.Rand, api string, sp smallSpec) *plan {
 	}
 	pl.Dep, pl.DepK = smallModels[sp.model].dep, smallModels[sp.model].k
 	pl.SrcCtx = true
+	return pl
+}
+
+// GOMAXPROCS changed in-process.
+
+type procsSpec struct {
+	api         string
+	g, par, buf int
+	shape       int // 0: straggler at 0 held until the pipeline is full; 1: late-first latency, slow consumer
+}
+
+// mkProcsPlan must be called after runtime.GOMAXPROCS(sp.g): basePlan reads the current value.
+func mkProcsPlan(rnd *vkit.Rand, sp procsSpec) *plan {
+	pl := basePlan(rnd, sp.api, 80+rnd.Intn(60), sp.par, sp.buf)
+	pl.Procs = sp.g
+	pl.SrcCtx = true
+	if sp.shape == 0 {
+		pl.Lat = "strag0"
+		pl.Strag = 0
+		pl.gateGoal = int64(imin(pl.N, pl.beff+1))
+		pl.stragEx = int32(300 + rnd.Intn(300))
+		for i := range pl.lat {
+			if rnd.Bool(0.3) {
+				pl.lat[i] = int32(rnd.Intn(40))
+			}
+		}
+	} else {
+		pl.Lat = "rev"
+		w := pl.beff + 1
+		for i := range pl.lat {
+			pl.lat[i] = int32((w - 1 - i%w) * 60)
+		}
+		pl.Pace = "slow"
+		for i := range pl.paceLat {
+			pl.paceLat[i] = int32(100 + rnd.Intn(200))
+		}
+	}
 	return pl
 }
 
@@ -586,6 +660,9 @@ func bucket(k, n int) string {
 // srcDesc describes the source's behaviour for messages.
 func (pl *plan) srcDesc() string {
 	d := "plain"
+	if pl.Procs > 0 {
+		d = fmt.Sprintf("plain (after runtime.GOMAXPROCS(%d) in this process, so parallelism %d means %d)", pl.Procs, pl.Par, pl.P)
+	}
 	switch pl.Dep {
 	case "lag":
 		d = fmt.Sprintf("pull m waits until the consumer has received m-%d results", pl.DepK)
@@ -621,8 +698,8 @@ func (pl *plan) key() string {
 	if len(pl.FailAt) > 0 {
 		fa = fmt.Sprintf("%dx%s", len(pl.FailAt), bucket(pl.FailAt[0], pl.N))
 	}
-	return fmt.Sprintf("%s|%d|%d/%d|%d|%s|%s|%s|f%s|s%s|c%s|%s|o%s|x%v|g%v|l%s|b%s|e%s/%s|%v", pl.API, pl.N, pl.Par, pl.P, pl.Buf, pl.Lat, pl.Pace, pl.Mode,
-		fa, bucket(pl.SrcErrAt, pl.N), bucket(pl.CloseAt, pl.N), pl.FMode, bucket(pl.OuterAt, pl.N), pl.Expiry, pl.Strag >= 0, lagBucket(pl), bucket(pl.SrcBlockAt, pl.N), pl.SrcErrKind, pl.FErrKind, pl.Perm)
+	return fmt.Sprintf("%s|%d|%d/%d|%d|%s|%s|%s|f%s|s%s|c%s|%s|o%s|x%v|g%v|l%s|b%s|e%s/%s|%v|G%d", pl.API, pl.N, pl.Par, pl.P, pl.Buf, pl.Lat, pl.Pace, pl.Mode,
+		fa, bucket(pl.SrcErrAt, pl.N), bucket(pl.CloseAt, pl.N), pl.FMode, bucket(pl.OuterAt, pl.N), pl.Expiry, pl.Strag >= 0, lagBucket(pl), bucket(pl.SrcBlockAt, pl.N), pl.SrcErrKind, pl.FErrKind, pl.Perm, pl.Procs)
 }
 
 // ---------------------------------------------------------------------------------------------
@@ -1320,6 +1397,9 @@ func runPlan(c *vkit.Case, pl *plan, st *stats) {
 		}
 		r.mu.Unlock()
 	}
+	if v == nil && pl.Procs > 0 && r.gauge.Max() > int64(pl.P) {
+		v = &viol{"f-concurrency", fmt.Sprintf("%s: %d calls of f ran at the same time although parallelism=%d means GOMAXPROCS = %d at the time of the call", api, r.gauge.Max(), pl.Par, pl.P), nil}
+	}
 	if v != nil {
 		what := fmt.Sprintf("%s [len=%d parallelism=%d bufferSize=%d latency=%s pace=%s plan=%s close_after=%d f_ctx=%s source=%s]", v.what, pl.N, pl.Par, pl.Buf, pl.Lat, pl.Pace, pl.Mode, pl.CloseAt, pl.FMode, pl.srcDesc())
 		c.Violation(v.sig, what, witness(v.extra))
@@ -1383,6 +1463,13 @@ func runPlan(c *vkit.Case, pl *plan, st *stats) {
 	}
 	if multi > 0 {
 		rep.Count("f invocations (recorded, not judged)", "items given to f more than once", multi)
+	}
+	if pl.Procs > 0 {
+		rep.Count("procs", fmt.Sprintf("%s cases after GOMAXPROCS(%d)", api, pl.Procs), 1)
+		rep.Max("procs: f concurrency / GOMAXPROCS in force", fmt.Sprintf("GOMAXPROCS(%d)", pl.Procs), int(r.gauge.Max()))
+		if mi >= pl.beff+1 {
+			rep.Count("procs", "in-flight reached max(buffer,GOMAXPROCS)+1", 1)
+		}
 	}
 	if pl.Perm != nil {
 		match := nOrder == len(pl.Perm)
